@@ -5,6 +5,7 @@ package eng
 // protoreflect-driven random filler.
 
 import (
+	"bytes"
 	"fmt"
 	"math/rand/v2"
 	"reflect"
@@ -12,6 +13,7 @@ import (
 
 	commonpb "go.temporal.io/api/common/v1"
 	enumspb "go.temporal.io/api/enums/v1"
+	failurepb "go.temporal.io/api/failure/v1"
 	historypb "go.temporal.io/api/history/v1"
 	"go.temporal.io/server/common/persistence/serialization"
 	"google.golang.org/protobuf/proto"
@@ -224,10 +226,16 @@ func readLeaf(g *typeGraph, p tPath, m proto.Message) (reflect.Value, error) {
 				blob = fv.Interface().(*commonpb.DataBlob)
 			}
 			evs, err := evSerializer.DeserializeEvents(blob)
-			if err != nil || len(evs) != 1 {
+			if err != nil || len(evs) == 0 {
 				return reflect.Value{}, fmt.Errorf("blob decode: %v (%d events)", err, len(evs))
 			}
-			cur = reflect.ValueOf(evs[0])
+			pick := evs[0]
+			for _, ev := range evs { // with pad events around it, the event built along the path has id 1
+				if ev.EventId == 1 {
+					pick = ev
+				}
+			}
+			cur = reflect.ValueOf(pick)
 			continue
 		}
 		switch fv.Kind() {
@@ -611,4 +619,155 @@ func listNsValues(m protoreflect.Message, out *[]string) {
 		}
 		return true
 	})
+}
+
+// ---- batch context: the same message with more events around the one a path leads to ----
+
+// mapEventBlobs applies f to the decoded events of every event blob inside m (descriptor walk; blobs that do
+// not decode are left alone) and re-serializes the result.
+func mapEventBlobs(m protoreflect.Message, f func([]*historypb.HistoryEvent) []*historypb.HistoryEvent) {
+	m.Range(func(fd protoreflect.FieldDescriptor, v protoreflect.Value) bool {
+		switch {
+		case fd.IsMap():
+			if fd.MapValue().Message() != nil {
+				v.Map().Range(func(_ protoreflect.MapKey, mv protoreflect.Value) bool {
+					mapEventBlobs(mv.Message(), f)
+					return true
+				})
+			}
+		case fd.Message() != nil && fd.Message().FullName() == "temporal.api.common.v1.DataBlob":
+			if nonEventBlobFields[string(fd.FullName())] {
+				return true
+			}
+			fix := func(bm protoreflect.Message) {
+				blob := bm.Interface().(*commonpb.DataBlob)
+				if len(blob.GetData()) == 0 {
+					return
+				}
+				evs, err := evSerializer.DeserializeEvents(blob)
+				if err != nil {
+					return
+				}
+				if nb, err := evSerializer.SerializeEvents(f(evs)); err == nil {
+					blob.Data, blob.EncodingType = nb.Data, nb.EncodingType
+				}
+			}
+			if fd.IsList() {
+				for i := 0; i < v.List().Len(); i++ {
+					fix(v.List().Get(i).Message())
+				}
+			} else {
+				fix(v.Message())
+			}
+		case fd.Message() != nil:
+			if fd.IsList() {
+				for i := 0; i < v.List().Len(); i++ {
+					mapEventBlobs(v.List().Get(i).Message(), f)
+				}
+			} else {
+				mapEventBlobs(v.Message(), f)
+			}
+		}
+		return true
+	})
+}
+
+// padEvents: one event per attributes type that has a field selected by `want` (by descriptor), in the given
+// shapes: the attributes present but the field unset ("unset"), and the field set by `fillField` ("set").
+// Event ids start at 100 so that the event built along a path (id 1) stays recognisable.
+func padEvents(want func(fd protoreflect.FieldDescriptor) bool, fillField func(attrs protoreflect.Message, fd protoreflect.FieldDescriptor)) (unset, set []*historypb.HistoryEvent) {
+	evd := (&historypb.HistoryEvent{}).ProtoReflect().Descriptor()
+	oo := evd.Oneofs().ByName("attributes")
+	id := int64(100)
+	for i := 0; i < oo.Fields().Len(); i++ {
+		afd := oo.Fields().Get(i)
+		var target protoreflect.FieldDescriptor
+		for j := 0; j < afd.Message().Fields().Len(); j++ {
+			if want(afd.Message().Fields().Get(j)) {
+				target = afd.Message().Fields().Get(j)
+				break
+			}
+		}
+		if target == nil {
+			continue
+		}
+		for _, withField := range []bool{false, true} {
+			ev := &historypb.HistoryEvent{EventId: id}
+			id++
+			attrs := ev.ProtoReflect().Mutable(afd).Message()
+			if withField {
+				fillField(attrs, target)
+			}
+			fixEventType(ev)
+			if withField {
+				set = append(set, ev)
+			} else {
+				unset = append(unset, ev)
+			}
+		}
+	}
+	return
+}
+
+func plainPadEvent(id int64) *historypb.HistoryEvent {
+	return &historypb.HistoryEvent{EventId: id, EventType: enumspb.EVENT_TYPE_WORKFLOW_TASK_COMPLETED,
+		Attributes: &historypb.HistoryEvent_WorkflowTaskCompletedEventAttributes{WorkflowTaskCompletedEventAttributes: &historypb.WorkflowTaskCompletedEventAttributes{Identity: "worker"}}}
+}
+
+// badUTF8Marker is put into a failure message of a pad event; corruptBlobs then turns it into invalid UTF-8 of the
+// same length inside the serialized blob bytes (the standard codec refuses to marshal invalid UTF-8 itself).
+const badUTF8Marker = "bad~^~^utf8"
+
+func failurePadEvent(id int64) *historypb.HistoryEvent {
+	return &historypb.HistoryEvent{EventId: id, EventType: enumspb.EVENT_TYPE_ACTIVITY_TASK_FAILED,
+		Attributes: &historypb.HistoryEvent_ActivityTaskFailedEventAttributes{ActivityTaskFailedEventAttributes: &historypb.ActivityTaskFailedEventAttributes{
+			Identity: "worker", Failure: &failurepb.Failure{Message: badUTF8Marker, Source: "GoSDK"}}}}
+}
+
+// invalidIdentityMarker is put into a NON-failure string of a pad event: corrupted, the blob cannot be repaired.
+const invalidIdentityMarker = "wrk~^~^id"
+
+func corruptBytes(data []byte) []byte {
+	return bytes.ReplaceAll(data, []byte("~^~^"), []byte("\xff\xfe\xff\xfe"))
+}
+
+// corruptBlobs rewrites the marker inside every DataBlob's bytes into invalid UTF-8; returns how many blobs changed.
+func corruptBlobs(m protoreflect.Message) int {
+	n := 0
+	m.Range(func(fd protoreflect.FieldDescriptor, v protoreflect.Value) bool {
+		switch {
+		case fd.IsMap():
+			if fd.MapValue().Message() != nil {
+				v.Map().Range(func(_ protoreflect.MapKey, mv protoreflect.Value) bool {
+					n += corruptBlobs(mv.Message())
+					return true
+				})
+			}
+		case fd.Message() != nil && fd.Message().FullName() == "temporal.api.common.v1.DataBlob":
+			fix := func(bm protoreflect.Message) {
+				blob := bm.Interface().(*commonpb.DataBlob)
+				if nd := corruptBytes(blob.GetData()); !bytes.Equal(nd, blob.GetData()) {
+					blob.Data = nd
+					n++
+				}
+			}
+			if fd.IsList() {
+				for i := 0; i < v.List().Len(); i++ {
+					fix(v.List().Get(i).Message())
+				}
+			} else {
+				fix(v.Message())
+			}
+		case fd.Message() != nil:
+			if fd.IsList() {
+				for i := 0; i < v.List().Len(); i++ {
+					n += corruptBlobs(v.List().Get(i).Message())
+				}
+			} else {
+				n += corruptBlobs(v.Message())
+			}
+		}
+		return true
+	})
+	return n
 }
